@@ -334,6 +334,23 @@ impl Scenario for C09 {
                 p.data = d;
             }
         }
+        let long_line = p.data.len() > 1_000_000;
+        if long_line && rng.chance(1, 2) {
+            // a > 1 MiB line: interruptions spread over the whole read, so that several land deep inside the line
+            p.scen = "seeded-read-interrupted-only".into();
+            p.set("dec", *rng.pick(&[0i64, 3, 8]));
+            p.set("t", if rng.chance(1, 2) { T_SIM } else { T_BUFREADER });
+            let chunk = *rng.pick(&[512u32, 4096, 8192, 65_536]);
+            p.sched = vec![chunk];
+            p.set("cap", *rng.pick(&[512i64, 8192, 65_536]));
+            let calls = (p.data.len() as u32 / chunk.min(p.get("cap") as u32).max(1)) + 4;
+            let mut e: Vec<u32> = (0..10).map(|_| rng.below(calls as usize) as u32).collect();
+            e.sort_unstable();
+            e.dedup();
+            p.eintr = e;
+            p.faults.push("R3-interrupted-deep-inside-a-1MiB-line".into());
+            return p;
+        }
         if rng.chance(3, 5) {
             p.set("dec", rng.below(9) as i64);
             plan_transport(&mut rng, &mut p, true);
